@@ -85,6 +85,11 @@ REQUESTS = [
     # a stream produced by a task shared by two deferred fragments that both fail (through different fields)
     ("shared_stream_both_fail", '{ me { ... @defer(label: "A") { friends @stream(initialCount: 1, label: "s") { id } a: nn } ... @defer(label: "B") { friends @stream(initialCount: 1, label: "s") { id } b: nn } } }', {},
      [["u1.friends:agen", "u1.nn:err"], ["u1.friends:aiter", "u1.nn:err"], ["u1.nn:err"]], None),
+    # experimental fragment arguments: the streamed items / deferred fields are completed in the variable scope of the fragment
+    ("stream_in_fragment_scope", '{ me { ...F(inc: true, n: 1) } } fragment F($inc: Boolean = false, $n: Int = 0) on User { friends @stream(initialCount: $n, label: "s") { id name @include(if: $inc) } }', {},
+     [[], ["u1.friends:agen"], ["u2.name"]], None),
+    ("defer_in_fragment_scope", '{ me { ...F(inc: true) other: best { ...F } } } fragment F($inc: Boolean = false) on User { id ... @defer(label: "d", if: $inc) { name nn @skip(if: $inc) } }', {},
+     [[], ["u1.name"]], None),
     ("deep", '{ me { best { ... @defer(label: "a") { name friends @stream(label: "s") { id ... @defer(label: "c") { nn } } } } } }', {"s": "a"},
      [["u2.name", "u3.nn"], ["u2.friends:agen"]], None),
 ]
@@ -133,7 +138,7 @@ def plain_response(schema, text, fault, variables, noprop, data=None, err_sites=
             def boom(path, args, site=site):
                 raise incr.Boom(f"{site} failed")
             _objs[oname][fname] = boom
-        res = execute_sync(schema, parse(t), root, variable_values=variables, field_resolver=incr.resolver())
+        res = execute_sync(schema, incr.gparse(t), root, variable_values=variables, field_resolver=incr.resolver())
         r = _plain_cache[key] = res.formatted
     return r
 
@@ -157,7 +162,7 @@ def fragment_keys(text):
     r = _fk_cache.get(text)
     if r is not None:
         return r
-    doc = parse(text)
+    doc = incr.gparse(text)
     frags = {d.name.value: d for d in doc.definitions if type(d).__name__ == "FragmentDefinitionNode"}
     out = {}
 
@@ -275,7 +280,7 @@ def run_request(arg, tier, res, only=None):
 
     def scenario_for(fault, variables, noprop, ebound):
         t = with_noprop(text) if noprop else text
-        doc = parse(t)
+        doc = incr.gparse(t)
 
         def scenario(c):
             return incr.run(c, schema, doc, sites, fault, early, early_bound=ebound, variables=variables)
@@ -378,7 +383,7 @@ def run_gen(arg, tier, res, only=None):
         if "@defer" not in text and "@stream" not in text:
             return
         try:
-            doc = parse(text)
+            doc = incr.gparse(text)
         except GraphQLSyntaxError as e:
             raise AssertionError(f"unparseable generated text {text!r}: {e}") from e
         if validate(schema, doc):
@@ -391,7 +396,7 @@ def run_gen(arg, tier, res, only=None):
                 continue
             for noprop in ((False, True) if fault else (False,)):
                 t = with_noprop(text) if noprop else text
-                d2 = parse(t)
+                d2 = incr.gparse(t)
                 c2 = None
                 from vf.engine.choice import Chooser
 
@@ -412,7 +417,7 @@ def run_gen(arg, tier, res, only=None):
         from vf.engine.choice import Chooser
 
         t = with_noprop(doc_text) if noprop else doc_text
-        obs = incr.run(Chooser(()), schema, parse(t), [], fault, early, early_bound=False, variables=values, data=gen_data)
+        obs = incr.run(Chooser(()), schema, incr.gparse(t), [], fault, early, early_bound=False, variables=values, data=gen_data)
         judge(obs, schema, doc_text, enclosing_from_labels(doc_text), fault, values, noprop, "replay", {}, res, data=gen_data)
         return
     res.add_stats(explore(scenario, k, visit, root=(a, b)))
